@@ -153,7 +153,8 @@ def dependence_structure(pm, ctx, u):
             if dv not in defs:
                 ctx.unrecognised("C20-h", site, f"no variable {dv}")
                 continue
-            val = defs[dv].value
+            from ..pm import canon_node
+            val = canon_node(defs[dv].value)
             terms = []
 
             def flat(e):
@@ -475,6 +476,8 @@ def _size_key(e):
 
 def _guard_semantics(t):
     """meaning of a raising test of draw_gmm -> key tuple, or None when it is not understood"""
+    from ..pm import canon_node
+    t = canon_node(t)
     if isinstance(t, ast.Compare) and len(t.ops) == 1 and isinstance(t.ops[0], ast.NotEq):
         a, b = _size_key(t.left), _size_key(t.comparators[0])
         if a and b:
